@@ -102,6 +102,13 @@ func (f *FS) TakeLog() []FSEvent {
 	return l
 }
 
+// PeekLog returns a copy of the event log without clearing it.
+func (f *FS) PeekLog() []FSEvent {
+	f.sh.mu.Lock()
+	defer f.sh.mu.Unlock()
+	return append([]FSEvent(nil), f.sh.Log...)
+}
+
 // Snapshot returns the current file set.
 func (f *FS) Snapshot() map[string][]byte {
 	f.sh.mu.Lock()
